@@ -119,7 +119,7 @@ def _callee_key(n):
     return (n.get('cls'), n.get('callee'))
 
 
-def verify(ctx, spec, check_sites, rule, min_sites=0):
+def verify(ctx, spec, check_sites, rule, min_sites=0, extra_post=None, collect=None, extra_sites=None):
     """check_sites(fn, rec, ext_of) -> (n, problems) is the site checker of C13 (shared)."""
     F = ctx.F
     fns = {}
@@ -146,6 +146,8 @@ def verify(ctx, spec, check_sites, rule, min_sites=0):
             raise AnalysisBroken('%s: contract mentions unknown names: %s' % (fn.qname, bad_spec))
 
         def post_hook(f, st, n, spec=spec):
+            if extra_post is not None:
+                extra_post(f, st, n)
             # value contracts:  T v = callee(..);  /  v = callee(..);
             tgt, call = None, None
             if n['k'] == 'DeclStmt' and len(n.get('decls', [])) == 1 and 'init' in n['decls'][0]:
@@ -307,6 +309,10 @@ def verify(ctx, spec, check_sites, rule, min_sites=0):
                 return ext_of(a0)
             return None
         nsite, probs = check_sites(fn, rec, ext_of)
+        if extra_sites is not None:
+            n2, p2 = extra_sites(fn, rec)
+            nsite += n2
+            probs = probs + p2
         total_sites += nsite
         problems += probs + map_problems
         # ---- call obligations
@@ -433,3 +439,308 @@ def _window_call(fn, z, c, spec, ext_of):
     if st is None or ranges.lf_sub(st, e[0]) != {1: 0} and {k: v for k, v in ranges.lf_sub(st, e[0]).items() if v != 0} != {}:
         probs.append('%s: stride %s is not the column stride of the matrix' % (what, fn.s(amap[stride])))
     return probs
+
+
+# ---------------------------------------------------------------------------------------------------------------------
+# Packed lower-triangular storage (Bunch-Kaufman factorization): column j of an n x n matrix holds rows j..n-1 contiguously,
+# columns follow each other.  A pointer into the storage is modelled as (column, row): `column` is fixed per pointer variable
+# (tabulated), `row` is an integer zone variable.  The start of column c+1 is the one-past-the-end of column c: (c, n).
+# ---------------------------------------------------------------------------------------------------------------------
+class Packed:
+    def __init__(self, cls, n_field, coeff='coeff', diag='diag_coeff', colptr='col_pointer', ptr_cols=None):
+        self.cls, self.n, self.coeff, self.diag, self.colptr = cls, ('f', n_field), coeff, diag, colptr
+        self.ptr_cols = ptr_cols or {}        # member -> {pointer local name: column text}
+
+    def cols_of(self, fn):
+        out = {}
+        for nm, txt in self.ptr_cols.get(fn.name, {}).items():
+            for vid, lv in fn.locals.items():
+                if lv['name'] == nm and lv['type'].endswith('*'):
+                    out[vid] = _resolve(fn, _lin(txt), extra=self._locals(fn))
+        return out
+
+    def _locals(self, fn):
+        # column texts may name parameters only (resolved by _resolve) -- nothing extra
+        return None
+
+    def ptr_of(self, fn, node, cols):
+        """(column form, row form) of a pointer-valued expression, or None."""
+        n = fn.strip(node)
+        if n is None:
+            return None
+        k = n['k']
+        if k == 'DeclRefExpr' and n.get('var') in cols:
+            return (cols[n['var']], {('v', n['var']): 1, 1: 0})
+        if k == 'CXXMemberCallExpr' and n.get('callee') == self.colptr:
+            c = ranges.linform(fn, fn.call_args(n)[0])
+            return None if c is None else (c, dict(c))
+        if k == 'UnaryOperator' and n.get('op') == '&':
+            e = fn.strip(fn.nodes[n['c'][0]])
+            if e is not None and e['k'] == 'CXXMemberCallExpr' and e.get('callee') == self.coeff:
+                a = fn.call_args(e)
+                i, j = ranges.linform(fn, a[0]), ranges.linform(fn, a[1])
+                return None if i is None or j is None else (j, i)
+            if e is not None and e['k'] == 'CXXMemberCallExpr' and e.get('callee') == self.diag:
+                i = ranges.linform(fn, fn.call_args(e)[0])
+                return None if i is None else (i, dict(i))
+            return None
+        if k == 'BinaryOperator' and n.get('op') in ('+', '-'):
+            l, r = fn.nodes[n['c'][0]], fn.nodes[n['c'][1]]
+            pl = self.ptr_of(fn, l, cols)
+            e = ranges.linform(fn, r)
+            if pl is not None and e is not None:
+                sg = 1 if n['op'] == '+' else -1
+                row = dict(pl[1])
+                for kk, vv in e.items():
+                    row[kk] = row.get(kk, 0) + sg * vv
+                return (pl[0], row)
+        return None
+
+    def normalise(self, cr, col):
+        """row of pointer (c, r) expressed in column `col`: same column, or the start of the next column (= row n of `col`)."""
+        if cr is None:
+            return None
+        c, r = cr
+        d = ranges.lf_sub(c, col)
+        if {k: v for k, v in d.items() if v != 0} == {}:
+            return r
+        if {k: v for k, v in d.items() if v != 0} == {1: 1} and {k: v for k, v in ranges.lf_sub(r, c).items() if v != 0} == {}:
+            return {self.n: 1, 1: 0}
+        return None
+
+
+def verify_packed(ctx, spec, pk, check_sites, rule):
+    """contracts.verify plus the obligations of the packed pointer model (see Packed)."""
+    N = {pk.n: 1, 1: 0}
+    fns = {}
+    for fn in ctx.F.concrete():
+        if fn.cls == spec.cls and fn.cfg and not fn.d.get('ctor') and fn.name in spec.members:
+            fns.setdefault(fn.mangled, fn)
+    old_pv = zone.PTR_VARS
+    zone.PTR_VARS = lambda f: set(pk.cols_of(f))
+    extra_post = {}
+
+    def ptr_post(f, st, n):
+        cols = pk.cols_of(f)
+        # pointer declarations / assignments: set the row variable
+        tgt, rhs = None, None
+        if n['k'] == 'DeclStmt':
+            for d in n.get('decls', []):
+                if d.get('var') in cols and 'init' in d:
+                    tgt, rhs = d['var'], f.nodes[d['init']]
+        elif n['k'] == 'BinaryOperator' and n.get('op') == '=':
+            l = f.strip(f.nodes[n['c'][0]])
+            if l is not None and l['k'] == 'DeclRefExpr' and l.get('var') in cols:
+                tgt, rhs = l['var'], f.nodes[n['c'][1]]
+        if tgt is not None:
+            row = pk.normalise(pk.ptr_of(f, rhs, cols), cols[tgt])
+            v = ('v', tgt)
+            st.d.forget(v)
+            if row is not None:
+                vs = [(k, c) for k, c in row.items() if k != 1 and c != 0]
+                if not vs:
+                    st.d.assign_var_plus(v, 'Z', row.get(1, 0))
+                elif len(vs) == 1 and vs[0][1] == 1 and vs[0][0] != v:
+                    st.d.assign_var_plus(v, vs[0][0], row.get(1, 0))
+                else:
+                    up = dict(row)
+                    up[v] = up.get(v, 0) - 1
+                    add_fact(st, {k: -c for k, c in up.items()})       # v - row <= 0
+                    add_fact(st, up)                                    # row - v <= 0
+            return
+        # integer assignments whose right-hand side reduces (const locals inlined, pointer differences cancelled) to var + c
+        if n['k'] == 'BinaryOperator' and n.get('op') == '=':
+            v = zone.var_of(f, f.nodes[n['c'][0]])
+            if v is not None and v[1] not in cols and zone.linear(f, f.nodes[n['c'][1]]) is None:
+                L = _ptr_linform(f, f.nodes[n['c'][1]], pk, cols)
+                if L is not None:
+                    vs = [(k, c) for k, c in L.items() if k != 1 and c != 0]
+                    if len(vs) == 1 and vs[0][1] == 1 and vs[0][0] != v:
+                        st.d.forget(v)
+                        st.d.assign_var_plus(v, vs[0][0], L.get(1, 0))
+    problems_by_fn = {}
+    try:
+        # the generic part (index sites of declared arrays, call pre / postconditions) with the pointer rows live
+        total = verify(ctx, spec, check_sites, rule, extra_post=ptr_post, collect=problems_by_fn, extra_sites=packed_sites(pk))
+    finally:
+        zone.PTR_VARS = old_pv
+    return total
+
+
+def _ptr_linform(fn, node, pk, cols):
+    """linear form of an integer expression that may contain differences of packed pointers of one column"""
+    n = fn.strip(node)
+    if n is None:
+        return None
+    if n['k'] == 'BinaryOperator' and n.get('op') in ('+', '-'):
+        l, r = fn.nodes[n['c'][0]], fn.nodes[n['c'][1]]
+        pl, pr = pk.ptr_of(fn, l, cols), pk.ptr_of(fn, r, cols)
+        if pl is not None and pr is not None and n['op'] == '-':
+            rr = pk.normalise(pr, pl[0])
+            if rr is None:
+                return None
+            return _const_inline(fn, ranges.lf_sub(pl[1], rr), pk, cols)
+        a, b = _ptr_linform(fn, l, pk, cols), _ptr_linform(fn, r, pk, cols)
+        if a is None or b is None:
+            return None
+        sg = 1 if n['op'] == '+' else -1
+        out = dict(a)
+        for k, v in b.items():
+            out[k] = out.get(k, 0) + sg * v
+        return {k: v for k, v in out.items() if v != 0 or k == 1}
+    L = ranges.linform(fn, n)
+    return None if L is None else _const_inline(fn, L, pk, cols)
+
+
+def _const_inline(fn, L, pk, cols):
+    """replace const pointer locals (never re-pointed) by the row of their initialiser"""
+    out = {1: L.get(1, 0)}
+    for k, v in L.items():
+        if k == 1:
+            continue
+        if isinstance(k, tuple) and k[0] == 'v' and k[1] in cols and fn.locals[k[1]]['type'].startswith('const ') is not None:
+            lv = fn.locals[k[1]]
+            init = None
+            writes = 0
+            for x in fn.walk():
+                if x['k'] == 'DeclStmt':
+                    for d in x.get('decls', []):
+                        if d.get('var') == k[1] and 'init' in d:
+                            init = fn.nodes[d['init']]
+                if x['k'] in ('BinaryOperator', 'CompoundAssignOperator', 'UnaryOperator') and x.get('op') in ('=', '+=', '-=', '++', '--'):
+                    t = fn.strip(fn.nodes[x['c'][0]])
+                    if t is not None and t['k'] == 'DeclRefExpr' and t.get('var') == k[1]:
+                        writes += 1
+            if init is not None and writes == 0:
+                row = pk.normalise(pk.ptr_of(fn, init, {kk: vv for kk, vv in cols.items() if kk != k[1]}), cols[k[1]])
+                if row is not None and not any(isinstance(kk, tuple) and kk[0] == 'v' and kk[1] in cols for kk in row):
+                    for kk, vv in row.items():
+                        out[kk] = out.get(kk, 0) + v * vv
+                    continue
+        out[k] = out.get(k, 0) + v
+    return {k: v for k, v in out.items() if v != 0 or k == 1}
+
+
+def packed_sites(pk):
+    def neg(L):
+        return {k: -v for k, v in L.items()}
+
+    def plus(L, c):
+        r = dict(L)
+        r[1] = r.get(1, 0) + c
+        return r
+
+    def run(fn, rec):
+        cols = pk.cols_of(fn)
+        N = {pk.n: 1, 1: 0}
+        nsite = 0
+        probs = []
+
+        def need(z, L, what, txt):
+            if L is None or not ranges.prove_nonpos(z, L):
+                probs.append('%s: cannot prove %s' % (what, txt))
+
+        def address_only(x):
+            cur = x
+            par = fn.node(fn.parent.get(cur['id'], -1))
+            while par is not None and par['k'] in ('ImplicitCastExpr', 'ParenExpr', 'MaterializeTemporaryExpr', 'ExprWithCleanups'):
+                cur = par
+                par = fn.node(fn.parent.get(cur['id'], -1))
+            return par is not None and par['k'] == 'UnaryOperator' and par.get('op') == '&'
+        for x in fn.walk():
+            z = rec.get(fn.pos_of(x))
+            if z is None:
+                continue
+            what = fn.s(x['id'])[:50]
+            if x['k'] == 'CXXMemberCallExpr' and x.get('cls') == pk.cls and x.get('callee') == pk.coeff and len(fn.call_args(x)) == 2:
+                a = fn.call_args(x)
+                i, j = ranges.linform(fn, a[0]), ranges.linform(fn, a[1])
+                nsite += 1
+                if i is None or j is None:
+                    probs.append('%s: non-linear packed index' % what)
+                    continue
+                ao = address_only(x)
+                need(z, neg(j), what, 'column >= 0')
+                need(z, ranges.lf_sub(j, i), what, 'row >= column (the storage holds the lower triangle only)')
+                need(z, plus(ranges.lf_sub(i, N), 0 if ao else 1), what, 'row <= n' if ao else 'row <= n - 1')
+                need(z, plus(ranges.lf_sub(j, N), 1), what, 'column <= n - 1')
+            elif x['k'] == 'CXXMemberCallExpr' and x.get('cls') == pk.cls and x.get('callee') in (pk.diag, pk.colptr) and len(fn.call_args(x)) == 1:
+                i = ranges.linform(fn, fn.call_args(x)[0])
+                nsite += 1
+                if i is None:
+                    probs.append('%s: non-linear packed index' % what)
+                    continue
+                need(z, neg(i), what, 'index >= 0')
+                need(z, plus(ranges.lf_sub(i, N), 1), what, 'index <= n - 1')
+            elif (x['k'] == 'UnaryOperator' and x.get('op') == '*') or x['k'] == 'ArraySubscriptExpr':
+                base = fn.nodes[x['c'][0]]
+                cr = pk.ptr_of(fn, base, cols)
+                if cr is None:
+                    continue
+                nsite += 1
+                c, r = cr
+                if x['k'] == 'ArraySubscriptExpr':
+                    e = ranges.linform(fn, fn.nodes[x['c'][1]])
+                    if e is None:
+                        probs.append('%s: non-linear subscript' % what)
+                        continue
+                    r = dict(r)
+                    for k_, v_ in e.items():
+                        r[k_] = r.get(k_, 0) + v_
+                need(z, neg(c), what, 'column >= 0')
+                need(z, ranges.lf_sub(c, r), what, 'the element is not above the start of its column')
+                need(z, plus(ranges.lf_sub(r, N), 1), what, 'the element is not past the end of its column')
+            elif x['k'] in ('CXXConstructExpr', 'CXXTemporaryObjectExpr') and x.get('ctor_of') == 'Eigen::Map':
+                a = [y for y in fn.call_args(x) if y['k'] != 'CXXDefaultArgExpr']
+                if len(a) < 2:
+                    continue
+                cr = pk.ptr_of(fn, a[0], cols)
+                if cr is None:
+                    continue
+                nsite += 1
+                c, r = cr
+                ln = ranges.linform(fn, a[1])
+                if ln is None:
+                    probs.append('%s: non-linear view length' % what)
+                    continue
+                need(z, neg(c), what, 'column >= 0')
+                need(z, ranges.lf_sub(c, r), what, 'view starts inside its column')
+                need(z, neg(ln), what, 'length >= 0')
+                tot = dict(r)
+                for k_, v_ in ln.items():
+                    tot[k_] = tot.get(k_, 0) + v_
+                need(z, ranges.lf_sub(tot, N), what, 'view ends inside its column (row + length <= n)')
+            elif x['k'] == 'CallExpr' and x.get('callee') in ('copy', 'swap_ranges') and len(fn.call_args(x)) == 3:
+                a = fn.call_args(x)
+                p1, p2, p3 = (pk.ptr_of(fn, y, cols) for y in a)
+                if p1 is None and p3 is None:
+                    continue
+                nsite += 1
+                ln = None
+                if p1 is not None and p2 is not None:
+                    r2 = pk.normalise(p2, p1[0])
+                    if r2 is not None:
+                        ln = ranges.lf_sub(r2, p1[1])
+                        need(z, ranges.lf_sub(p1[0], p1[1]), what, 'source range starts inside its column')
+                        need(z, ranges.lf_sub(r2, N), what, 'source range ends inside its column')
+                else:
+                    # first, first + L
+                    t1, t2 = sym(fn, a[0]), sym(fn, a[1])
+                    if isinstance(t2, tuple) and t2[0] == '+' and len(t2) == 3 and t1 in t2[1:]:
+                        other = [y for y in fn.walk(a[1]['id']) if y['k'] == 'BinaryOperator' and y.get('op') == '+']
+                        if other:
+                            ops = [fn.nodes[c_] for c_ in other[0]['c']]
+                            cand = [ranges.linform(fn, o) for o in ops if ranges.linform(fn, o) is not None]
+                            ln = cand[0] if cand else None
+                if ln is None:
+                    probs.append('%s: range length not recognised' % what)
+                    continue
+                need(z, neg(ln), what, 'range length >= 0')
+                if p3 is not None:
+                    tot = dict(p3[1])
+                    for k_, v_ in ln.items():
+                        tot[k_] = tot.get(k_, 0) + v_
+                    need(z, ranges.lf_sub(p3[0], p3[1]), what, 'destination starts inside its column')
+                    need(z, ranges.lf_sub(tot, N), what, 'destination range ends inside its column')
+        return nsite, probs
+    return run
